@@ -15,7 +15,8 @@ def step (st : State) (line : String) : State × String :=
      | some (sc, _) => ({ st with schema := sc }, "ok types=" ++ toString sc.types.length)
      | none => (st, "bad-args typ.schema"))
   | some (name, rest) =>
-    if name.startsWith "upd." then
+    if name.startsWith "conc." then (st, "ok")
+    else if name.startsWith "upd." then
       match stepUpd st name rest with
       | some r => r
       | none => (st, "bad-args " ++ name)
